@@ -183,6 +183,9 @@ func (r *Report) finish(verifDir string, wall float64, seed int, explanation str
 		order = append(order, ri.ID)
 	}
 	evDir := filepath.Join(verifDir, "evidence")
+	if d := os.Getenv("VERIF_OUT"); d != "" {
+		evDir = d // sensitivity runs on scratch copies must not overwrite the evidence of /repo
+	}
 	replayDir := filepath.Join(evDir, "replay")
 	os.MkdirAll(replayDir, 0o755)
 	old, _ := filepath.Glob(filepath.Join(replayDir, r.Prop+"-*.txt"))
